@@ -1,8 +1,249 @@
 import Req.Driver.Proto
+import Req.H1.BufLine
+import Req.Client.Dump
 /-! Driver lanes of C13. -/
 namespace Req.Driver.L.C13
-open Req.Proto
+open Req.Proto Req.H1.BufLine
 
-def lanes : List (String × (List String → String)) := []
+def errName : Option RErr → String
+  | none => "-"
+  | some (.src .eof) => "eof"
+  | some (.src (.other n)) => "o" ++ toString n
+  | some .noProgress => "noprogress"
+  | some .bufferFull => "full"
+  | some .tooLarge => "toolarge"
+  | some .stuck => "stuck"
+
+def mkSrc : List Bytes → List Nat → Option (List Chunk)
+  | [], [] => some []
+  | d :: ds, e :: es =>
+    (mkSrc ds es).map fun rest =>
+      (⟨d, if e = 0 then none else if e = 1 then some .eof else some (.other e)⟩ : Chunk) :: rest
+  | _, _ => none
+
+inductive Op
+  | L
+  | S (lim : Option Nat)
+  | K
+
+def parseOp (s : String) : Option Op :=
+  if s == "L" then some .L
+  else if s == "K" then some .K
+  else if s == "S" then some (.S none)
+  else if s.startsWith "S" then (s.drop 1).toNat?.map fun n => .S (some n)
+  else none
+
+/-- Runs the op list; returns the per-op renderings, the dump and the final reader. -/
+def runOps (B : Nat) (rl : LineFn) (dumpEaten : Bool) : List Op → Rd → Bytes → List String → List String × Bytes × Rd
+  | [], st, d, acc => (acc.reverse, d, st)
+  | .L :: ops, st, d, acc =>
+    match rl st with
+    | (r, st1, d1) =>
+      runOps B rl dumpEaten ops st1 (d ++ d1)
+        (("L:" ++ encodeHex r.line ++ ":" ++ (if r.isPrefix then "1" else "0") ++ ":" ++ errName r.err) :: acc)
+  | .S lim :: ops, st, d, acc =>
+    let r := readLineSlice rl lim st
+    let txt := match r.res with
+      | .ok l => "S:" ++ encodeHex l ++ ":-"
+      | .error e => "S:_:" ++ errName (some e)
+    runOps B rl dumpEaten ops r.st (d ++ r.dumped) (txt :: acc)
+  | .K :: ops, st, d, acc =>
+    match skipSpace B st with
+    | (e, st1) =>
+      runOps B rl dumpEaten ops st1 (if dumpEaten then d ++ e else d) (("K:" ++ toString e.length) :: acc)
+
+/-- `c13rl <B> <plain|dump|dumpold> <chunks> <errs> <ops>` →
+`<op results joined by ;> d=<dumped> r=<bytes still unread>`. -/
+def laneRl : List String → String
+  | [b, mode, chunks, errs, ops] =>
+    match b.toNat?, decodeList chunks, decodeNatList errs, (ops.splitOn ",").mapM parseOp with
+    | some B, some cs, some es, some os =>
+      match mkSrc cs es with
+      | none => "bad-op"
+      | some src =>
+        let sel : Option (LineFn × Bool) :=
+          if mode == "plain" then some (plainReadLine B, false)
+          else if mode == "dump" then some (dumpReadLine B, true)
+          else if mode == "dumpold" then some (dumpReadLineOld B, false)
+          else none
+        match sel with
+        | none => "bad-op"
+        | some (rl, de) =>
+          let (outs, d, st) := runOps B rl de os (Rd.ofSrc src) [] []
+          ";".intercalate outs ++ " d=" ++ encodeHex d ++ " r=" ++ encodeHex st.bytes
+    | _, _, _, _ => "bad-op"
+  | _ => "bad-op"
+
+/-! #### routing / expected dump -/
+open Req.Client.Dump in
+def optW (n : Nat) : Option Writer := if n = 0 then none else some n
+
+open Req.Client.Dump in
+/-- `out,reqOut,respOut,reqHOut,reqBOut,respHOut,respBOut,qh,qb,rh,rb,async` (writers: 0 = nil);
+`-` = no dumper at that level. -/
+def parseOpts (s : String) : Option (Option Opts) :=
+  if s == "-" then some none else
+  match decodeNatList s with
+  | some [o, qo, ro, qho, qbo, rho, rbo, qh, qb, rh, rb, a] =>
+    some (some { output := optW o, requestOutput := optW qo, responseOutput := optW ro,
+                 requestHeaderOutput := optW qho, requestBodyOutput := optW qbo,
+                 responseHeaderOutput := optW rho, responseBodyOutput := optW rbo,
+                 requestHeader := qh != 0, requestBody := qb != 0, responseHeader := rh != 0,
+                 responseBody := rb != 0, async := a != 0 })
+  | _ => none
+
+open Req.Client.Dump in
+def mkExchanges : List Bytes → Option (List Exchange)
+  | [] => some []
+  | a :: b :: c :: d :: rest => (mkExchanges rest).map (⟨a, b, c, d⟩ :: ·)
+  | _ => none
+
+def dedupSorted (l : List Nat) : List Nat :=
+  (l.foldl (fun acc x => if acc.contains x then acc else x :: acc) []).reverse.mergeSort
+
+open Req.Client.Dump in
+/-- `c13exp <client opts|-> <request opts|-> <parts: 4 per attempt>` → per writer (sorted, only
+non-empty) the bytes it must hold, and which levels deliver through the async channel.
+Options go through `newDumper` (nil Output → stderr) like every dumper of the library. -/
+def laneExp : List String → String
+  | [c, r, parts] =>
+    match parseOpts c, parseOpts r, decodeList parts with
+    | some co, some ro, some ps =>
+      match mkExchanges ps with
+      | none => "bad-op"
+      | some es =>
+        let ds := getDumpers (co.map newDumper) (ro.map newDumper)
+        let evs := expectedEvents ds es
+        let ws := dedupSorted (evs.map (·.writer))
+        let body := ws.filterMap fun w =>
+          let b := expectedDump ds es w
+          if b.isEmpty then none else some ("w" ++ toString w ++ "=" ++ encodeHex b)
+        let ch := (match co with | some o => if usesChannel .client o then "c" else "" | none => "") ++
+                  (match ro with | some o => if usesChannel .request o then "r" else "" | none => "")
+        " ".intercalate body ++ " chan=" ++ (if ch.isEmpty then "-" else ch)
+    | _, _, _ => "bad-op"
+  | _ => "bad-op"
+
+open Req.Client.Dump in
+/-- `c13route <opts>` → `enabled bits` and the resolved writer of each part, after `newDumper`
+(`n`) or for the raw options as `SetCommonDumpOptions` installs them (`r`). -/
+def laneRoute : List String → String
+  | [mode, o] =>
+    match parseOpts o with
+    | some (some o0) =>
+      let o := if mode == "n" then newDumper o0 else o0
+      " ".intercalate (Part.all.map fun p =>
+        (if o.enabled p then "1" else "0") ++ ":" ++ toString (o.resolve p)) ++ " out=" ++ toString o.out
+    | _ => "bad-op"
+  | _ => "bad-op"
+
+open Req.Client.Dump in
+/-- `c13dumpers <client opts|-> <request opts|-> <part 0..3|all>` → which dumpers (`c`, `r`)
+`GetDumpers` returns, filtered by the part when one is given. -/
+def laneDumpers : List String → String
+  | [c, r, part] =>
+    match parseOpts c, parseOpts r with
+    | some co, some ro =>
+      let tagged : List (String × Opts) :=
+        (match co with | some o => [("c", o)] | none => []) ++ (match ro with | some o => [("r", o)] | none => [])
+      let sel : Option (List (String × Opts)) :=
+        if part == "all" then some tagged else
+        match part.toNat? with
+        | some 0 => some (tagged.filter (·.2.enabled .reqHeader))
+        | some 1 => some (tagged.filter (·.2.enabled .reqBody))
+        | some 2 => some (tagged.filter (·.2.enabled .respHeader))
+        | some 3 => some (tagged.filter (·.2.enabled .respBody))
+        | _ => none
+      match sel with
+      | some l => if l.isEmpty then "-" else ",".intercalate (l.map (·.1))
+      | none => "bad-op"
+    | _, _ => "bad-op"
+  | _ => "bad-op"
+
+open Req.Client.Dump in
+def presetOf (n : Nat) : Option Preset :=
+  match n with
+  | 0 => some .all | 1 => some .withoutRequestBody | 2 => some .withoutResponseBody
+  | 3 => some .withoutResponse | 4 => some .withoutRequest | 5 => some .withoutHeader
+  | 6 => some .withoutBody | 7 => some .async
+  | n => if n ≥ 100 then some (.to n) else none
+
+open Req.Client.Dump in
+/-- `c13preset <default Output writer> <preset numbers>` → flags, async, Output(). -/
+def lanePreset : List String → String
+  | [out, ps] =>
+    match out.toNat?, decodeNatList ps with
+    | some w, some l =>
+      match l.mapM presetOf with
+      | some presets =>
+        let o := newDumper (applyPresets presets (defaultOpts w))
+        " ".intercalate (Part.all.map fun p => if o.enabled p then "1" else "0") ++
+          " async=" ++ (if o.async then "1" else "0") ++ " out=" ++ toString o.out
+      | none => "bad-op"
+    | _, _ => "bad-op"
+  | _ => "bad-op"
+
+def renderIO (rs : List Req.Client.Dump.IORes) : String :=
+  if rs.isEmpty then "-" else ",".intercalate (rs.map fun r => toString r.n ++ ":" ++ toString r.err)
+
+open Req.Client.Dump in
+/-- `c13wrapw <limit> <writes> <depth>` → results, what the inner writer got, what each of the
+`depth` nested wrappers dumped. -/
+def laneWrapW : List String → String
+  | [limit, writes, depth] =>
+    match limit.toNat?, decodeList writes, depth.toNat? with
+    | some l, some ps, some 1 =>
+      let (rs, ((_, got), d)) := (wrapWriter limitedWriter).runAll ((l, []), []) ps
+      renderIO rs ++ " got=" ++ encodeHex got ++ " d=" ++ encodeHex d
+    | some l, some ps, some 2 =>
+      let (rs, (((_, got), d1), d2)) := (wrapWriter (wrapWriter limitedWriter)).runAll (((l, []), []), []) ps
+      renderIO rs ++ " got=" ++ encodeHex got ++ " d=" ++ encodeHex d1 ++ " d=" ++ encodeHex d2
+    | _, _, _ => "bad-op"
+  | _ => "bad-op"
+
+open Req.Client.Dump in
+/-- `c13wrapr <data> <eofWithData 0|1> <read sizes>` → per read `data:err`, the dumped body, the
+number of separators. -/
+def laneWrapR : List String → String
+  | [data, ewd, caps] =>
+    match decodeHex data, ewd.toNat?, decodeNatList caps with
+    | some bs, some e, some cs =>
+      let (xs, (_, d, seps)) := (wrapReader (bytesReader (e != 0))).runAll (bs, [], 0) cs
+      (if xs.isEmpty then "-" else ",".intercalate (xs.map fun x => encodeHex x.1 ++ ":" ++ toString x.2))
+        ++ " d=" ++ encodeHex d ++ " seps=" ++ toString seps
+    | _, _, _ => "bad-op"
+  | _ => "bad-op"
+
+open Req.Client.Dump in
+/-- `c13chan <cap> <writer ids> <datas> <schedule: s/r string>` → the written events in order
+(`w:hex`), what is still queued / unsent, under the given schedule with a started `Start` loop
+(`S`) or an unstarted dumper (`U`) as first schedule character. Empty data is not an event
+(`DumpTo` ignores it). -/
+def laneChan : List String → String
+  | [cap, ws, ds, sched] =>
+    match cap.toNat?, decodeNatList ws, decodeList ds with
+    | some c, some wl, some dl =>
+      if wl.length != dl.length then "bad-op" else
+      let evs : List Event := (wl.zip dl).flatMap fun (w, d) => dumpTo d w
+      let started := sched.startsWith "S"
+      let steps : List Step := (sched.toList.drop 1).filterMap fun ch =>
+        if ch == 's' then some .send else if ch == 'r' then some .recv else none
+      let fin := (Chan.mk evs [] [] started).run c steps
+      let render (l : List Event) : String :=
+        if l.isEmpty then "-" else ",".intercalate (l.map fun e => toString e.writer ++ ":" ++ encodeHex e.data)
+      "written=" ++ render fin.written ++ " queued=" ++ toString fin.queue.length ++ " unsent=" ++ toString fin.todo.length
+    | _, _, _ => "bad-op"
+  | _ => "bad-op"
+
+def lanes : List (String × (List String → String)) := [
+  ("c13rl", laneRl),
+  ("c13exp", laneExp),
+  ("c13route", laneRoute),
+  ("c13dumpers", laneDumpers),
+  ("c13wrapw", laneWrapW),
+  ("c13wrapr", laneWrapR),
+  ("c13chan", laneChan),
+  ("c13preset", lanePreset)
+]
 
 end Req.Driver.L.C13
